@@ -175,3 +175,105 @@ def run(facts, rep, tier):
         rep.ob("C14.S", "%s|third-share" % short, bool(ok2),
                "share 2 depends on the secret and on both random shares through a subtraction (via %s)" % sorted(
                    v.split("::")[-1] for v in deps[2][2] if "subtract" in v.lower() or "add" in v.lower()), b.loc(key[0]))
+
+
+# ============================================================================ C14.B (thorough tier: binaries are extracted)
+def split_parties_bin(facts, rep):
+    """CLI input splitting: party j's file receives element j of the per-party vector; an input owned by party p goes
+    to party p only"""
+    cand = [b for n, b in facts.bodies.items() if b.crate == "ciphercore_split_parties" and b.kind == "closure"
+            and any((callee_name(t) or "").endswith("TypedValue::get_local_shares_for_each_party") for _, t in b.calls())]
+    if not cand:
+        rep.note("C14.B: binary ciphercore_split_parties not in the extracted facts (quick tier): not checked")
+        return
+    rep.rule("C14.B", "ciphercore_split_parties hands party j exactly element j of get_local_shares_for_each_party, and an input owned "
+                      "by party p is given in clear to party p only (the others receive a zero value of the type)")
+    b = cand[0]
+    fl = Flow(facts, b)
+    share_calls = [bb for bb, t in b.calls() if (callee_name(t) or "").endswith("TypedValue::get_local_shares_for_each_party")]
+    # pushes whose pushed value derives from the per-party vector
+    ok_pairs, bad_pairs = [], []
+    for bb, t in b.calls():
+        cn = callee_name(t) or ""
+        if not cn.endswith("Vec::<T, A>::push") or b.is_cleanup(bb) or len(t["args"]) < 2:
+            continue
+        vor = fl.origins(t["args"][1], (bb, None))
+        if not any(o[0] == "call" and o[1] in share_calls for o in vor):
+            continue
+        # index used to pick the share and index used to pick the destination
+        src_idx = _index_operand(b, fl, t["args"][1])
+        dst_idx = _index_operand(b, fl, t["args"][0])
+        same = src_idx is not None and dst_idx is not None and src_idx == dst_idx
+        (ok_pairs if same else bad_pairs).append((bb, src_idx, dst_idx))
+    rep.ob("C14.B", "shared-input|party-j-gets-element-j", bool(ok_pairs) and not bad_pairs,
+           "split_inputs[j] receives parties_shares[j] (same index value)" if ok_pairs and not bad_pairs else
+           "the per-party share vector is distributed with mismatching indices %s: a party receives another party's tuple "
+           "(its third share)" % bad_pairs, b.loc(share_calls[0]) if share_calls else b.loc())
+    # owner-only: the push of the clear input is unreachable when `j == p` is false
+    eqs = []
+    for bb in range(b.nblocks()):
+        if b.term(bb)["k"] == "switch" and not b.is_cleanup(bb):
+            src = C.switch_source(b, bb)
+            if src and src["kind"] == "cmp" and src["op"] == "Eq":
+                eqs.append((bb, src))
+    clear_pushes = []
+    for bb, t in b.calls():
+        cn = callee_name(t) or ""
+        if cn.endswith("Vec::<T, A>::push") and not b.is_cleanup(bb) and len(t["args"]) >= 2:
+            vor = fl.origins(t["args"][1], (bb, None))
+            if vor and not any(o[0] == "call" and (o[1] in share_calls or o[2].endswith(("TypedValue::new", "zero_of_type"))) for o in vor):
+                clear_pushes.append(bb)
+    guarded = 0
+    for pb in clear_pushes:
+        for (sb, src) in eqs:
+            rem = C.bool_switch_removed(b, sb, False if not src["neg"] else True)
+            if pb not in C.reachable(b, [0], removed_edges=rem) and pb in C.reachable(b, [0]):
+                guarded += 1
+                break
+    rep.ob("C14.B", "owned-input|owner-only", bool(clear_pushes) and guarded >= 1,
+           "%d push(es) of a clear input; %d of them unreachable unless `j == owner`; the public arm gives everyone the value"
+           % (len(clear_pushes), guarded), b.loc())
+
+
+def _index_operand(b, fl, op):
+    """the (root local of the) index used in the Index/IndexMut/iteration that produced operand `op`, if any"""
+    if op[0] == "k":
+        return None
+    l = op[1][0]
+    for _ in range(12):
+        ds = fl.defs_of.get(l, [])
+        if len(ds) != 1:
+            return None
+        _, bb, j = fl.defs[ds[0]]
+        if bb < 0:
+            return None
+        if j is None:
+            t = b.term(bb)
+            n = callee_name(t) or ""
+            if n.endswith(("::index", "::index_mut")) and len(t["args"]) == 2:
+                k = t["args"][1]
+                if k[0] == "k":
+                    return ("const", k[4])
+                return ("local", fl.root_of(k[1][0]))
+            if t["args"] and t["args"][0][0] != "k" and (n.endswith(("::clone", "::deref", "::deref_mut")) or
+                                                        t["f"].get("def") in ("std::clone::Clone::clone",)):
+                l = t["args"][0][1][0]
+                continue
+            return None
+        rv = b.stmts(bb)[j][2]
+        if rv[0] in ("ref", "raw"):
+            l = rv[2][0]
+            continue
+        if rv[0] == "use" and rv[1][0] != "k":
+            l = rv[1][1][0]
+            continue
+        return None
+    return None
+
+
+_run_ls = run
+
+
+def run(facts, rep, tier):
+    _run_ls(facts, rep, tier)
+    split_parties_bin(facts, rep)
